@@ -266,3 +266,36 @@ example : (step cfg0 (run cfg0 init hist0).1 (.msg ⟨0, ⟨⟨false, 7⟩, 7002
 theorem bind_timeout_regenerated : Gen.Consts.allocation_defaultTCPConnectionBindTimeout = 30 * 1000000000 := by decide
 
 end Turn.C16
+
+namespace Turn.C16
+open Turn.Srv
+/-- **TCP allocations exist on stream listeners only** (RFC 6062 5.1): an Allocate that asks for a TCP relay is granted only
+    when it arrived over a TCP/TLS control connection, so no Connect — whose dial may take as long as the peer likes — ever
+    runs on a datagram listener's single read loop, where it would hold up every other client (finding F41) -/
+theorem tcp_allocation_over_stream_only {c s k lt tr df tok even fam env reqPort newTok f g}
+    (h : allocChecks c s k lt tr df tok even fam env = .ok (true, reqPort, newTok, f, g)) :
+    (getLis c k.lid).stream = true := by
+  unfold allocChecks at h
+  split at h
+  · cases h
+  · cases h
+  · rename_i t
+    split at h; · cases h
+    split at h; · cases h
+    rename_i h442 h400
+    split at h; · cases h
+    split at h; · cases h
+    split at h; · cases h
+    split at h; · cases h
+    split at h; · cases h
+    split at h; · cases h
+    split at h; · cases h
+    simp only [Except.ok.injEq, Prod.mk.injEq] at h
+    obtain ⟨ht, _⟩ := h
+    simp_all
+
+/-! non-vacuity: granted over the stream listener of `cfg0`, refused with 400 over a datagram listener -/
+example : (allocChecks cfg0 init k0 .absent (.val 6) false .absent .absent .absent ⟨some 50001, true, none, ""⟩).isOk = true := by decide
+example : allocChecks { cfg0 with lis := [⟨false, 1, false, [], []⟩] } init k0 .absent (.val 6) false .absent .absent .absent
+    ⟨some 50001, true, none, ""⟩ = .error 400 := by decide
+end Turn.C16
